@@ -84,6 +84,14 @@ Definition set_node_attr st n k v : state :=
   match lookup n (nodes (g st)) with
   | Some d => upd_g st {| nodes := set n (set k v d) (nodes (g st)); succs := succs (g st) |}
   | None => st end.
+(* graph.nodes[n].pop(k, None) *)
+Definition del_node_attr st n k : state :=
+  match lookup n (nodes (g st)) with
+  | Some d => upd_g st {| nodes := set n (del k d) (nodes (g st)); succs := succs (g st) |}
+  | None => st end.
+(* UpdateNodeAttrs._apply: None stands for "no value" and removes the attribute *)
+Definition apply_attr st n (kv : Z * value) : state :=
+  match snd kv with VNone => del_node_attr st n (fst kv) | v => set_node_attr st n (fst kv) v end.
 (* graph.edges[u,v][k] = val *)
 Definition set_edge_attr st u v k val : state :=
   if has_edge st u v
@@ -230,7 +238,7 @@ Definition do_upd_attrs st n (new : attrs) : res basic :=
   | None => match new with [] => Ok (BUpdAttrs n [] []) st | _ => Err EKey st end
   | Some d =>
     let prev := map (fun kv => (fst kv, match lookup (fst kv) d with Some v => v | None => VNone end)) new in
-    Ok (BUpdAttrs n prev new) (fold_left (fun s kv => set_node_attr s n (fst kv) (snd kv)) new st)
+    Ok (BUpdAttrs n prev new) (fold_left (fun s kv => apply_attr s n kv) new st)
   end.
 
 (* UpdateNodeSeg(tracks, node, pixels, added) *)
